@@ -223,11 +223,11 @@ class C14(PropBase):
         "membership tables MEM_* of all 30 error-code enumerations (~6000 values) regenerated into Gen/C14Reason.v (regex over `Name = literal`, "
         "aborts on anything else); the model run uses them (gen_lk); the oracle reads the same files independently in props/c14.py",
         "translate/c14_names.py: value -> Debug name tables of the 40 small error-code enumerations; reason_string mirrors Display for CrashReason "
-        "over them (compared for 27 of 33 variants; literal prefixes tied to the source by c14_display_prefix_is_source)",
+        "over them (compared for 29 of 33 variants incl. the EXC_RESOURCE / EXC_GUARD bit-field renderings; literal prefixes tied to the source by c14_display_prefix_is_source)",
         "extraction ExtrOcamlBasic; ocaml/c14/main.ml; harness/src/bin/c14.rs (minidump-synth dump writer, test-assembler)",
     ]
     assumptions = [
-        "the text of WinError / NTSTATUS / in-page / EXC_RESOURCE / EXC_GUARD reasons is not predicted by the model (the oracle recomputes the first three from the source's name tables; EXC_RESOURCE / EXC_GUARD only as a function of (variant, payload))",
+        "the text of WinError / WinErrorWithFacility / NTSTATUS / in-page reasons (the two ~2900-entry name tables) is not predicted by the model; the oracle recomputes it from the source's name tables",
         "u8::is_ascii_whitespace and str::parse::<u32> (standard library) are modelled by hand (is_ws, parse_u32); non-UTF-8 bytes never form a digit",
         "the stack memory chosen for a walk is observed through the first scanned frame on x86, amd64, arm (not iOS), arm64 and old arm64 (64-bit CPUs: 8-byte aligned sp only; 32-bit: any alignment); on other CPUs the model's choice is not compared",
         "frames beyond frame 0 (the unwinder) belong to C03-C07; unloaded-module attribution is compared for frame 0",
@@ -333,6 +333,17 @@ class C14(PropBase):
         e["i0"] = rng.choice([0, 1, 8, 2, 3, 0x100000000, 0x100000001, rng.below(1 << 64), rng.below(100)])
         e["i1"] = rng.choice([0, 0xdeadbeef, 0xffffffff80001234, 0x100000010, U64, rng.below(1 << 64), rng.below(1 << 32)])
         e["i2"] = rng.choice([member("NtStatusWindows"), member("NtStatusWindows") | (rng.below(1 << 32) << 32), rng.below(1 << 64), 0])
+        if code in (11, 12) and osc != OS_WIN and osc != OS_LINUX and rng.chance(3, 4):
+            # EXC_RESOURCE / EXC_GUARD: information[1] carries a flavor (bits 58..60 resp. 32..60) and bit fields, [2] the subcode
+            if code == 11:
+                fl = rng.choice([1, 1, 2, 0, 3, 7])
+                e["i1"] = (fl << 58) | rng.choice([rng.below(1 << 58), rng.below(1 << 32), 0, (1 << 58) - 1])
+            else:
+                fl = rng.choice(sorted(en[rng.choice(["ExceptionCodeMacGuardMachPortFlavor", "ExceptionCodeMacGuardFDFlavor", "ExceptionCodeMacGuardVNFlavor",
+                                                       "ExceptionCodeMacGuardVirtMemoryFlavor", "ExceptionCodeMacGuardRejecteSysCallFlavor"])]) + [3, 0x1fffffff])
+                e["i1"] = (rng.below(8) << 61) | (fl << 32) | rng.choice([rng.below(1 << 32), 0, 0xfffffff, 0x10000000, U32])
+            e["i2"] = rng.choice([0, 1, 7, 0xfff, 0x1000, rng.below(1 << 64), U64, rng.below(1 << 16)])
+            e["flags"] = (rng.below(8) << 29) | rng.below(1 << 29)          # the resource / guard type lives in bits 29..31
         e["addr"] = rng.choice([0, 0x401000, 0xffffffffc0001000, 0x1_0000_0040, U64, rng.below(1 << 64), rng.below(1 << 32)])
         return e
 
@@ -543,10 +554,10 @@ class C14(PropBase):
         r = ("#" + d["reason"]) if self.reason_predicted(d["X"]) else ""
         return "T=%s;R=%s;X=%s;P=%s;C=%s;TM=%s;M=%s;U=%s%s" % (",".join(th), d["R"], d["X"], d["P"], d["C"], d["TM"], d["M"], d["U"], r)
 
-    # families whose Display the model predicts (all but WinError / WinErrorWithFacility / NtStatus / InPageError / MacResource / MacGuard)
+    # families whose Display the model predicts (all but WinError / WinErrorWithFacility / NtStatus / InPageError: the large name tables)
     @staticmethod
     def reason_predicted(x):
-        return x != "-" and int(x.split(":")[1]) not in (15, 16, 25, 26, 27, 29)
+        return x != "-" and int(x.split(":")[1]) not in (25, 26, 27, 29)
 
     def canon_model(self, case, ans):
         arch = int(case.split(" ", 1)[0])
